@@ -644,11 +644,29 @@ pub async fn run_server(
             None => std::future::pending::<()>().await,
         }
     };
+    // hyper stamps responses with a Date header taken from the real wall clock. Its *length* on
+    // the wire depends on the value (HPACK Huffman coding), so it is a source of nondeterminism;
+    // hyper's own builder option switches it off. Everything else is what with_auto_http() /
+    // with_http1() / with_http2() would configure.
+    use hyperdriver::bridge::rt::TokioExecutor;
     let b = hyperdriver::Server::builder::<hyperdriver::Body>().with_acceptor(acc).with_make_service(make);
     match proto {
-        ServerProto::Auto => b.with_auto_http().with_executor(exec).with_graceful_shutdown(signal).await,
-        ServerProto::H1 => b.with_http1().with_executor(exec).with_graceful_shutdown(signal).await,
-        ServerProto::H2 => b.with_http2().with_executor(exec).with_graceful_shutdown(signal).await,
+        ServerProto::Auto => {
+            let mut p = hyperdriver::server::AutoBuilder::new(TokioExecutor::new());
+            p.http1().auto_date_header(false);
+            p.http2().auto_date_header(false);
+            b.with_protocol(p).with_executor(exec).with_graceful_shutdown(signal).await
+        }
+        ServerProto::H1 => {
+            let mut p = hyperdriver::server::conn::http1::Builder::new();
+            p.auto_date_header(false);
+            b.with_protocol(p).with_executor(exec).with_graceful_shutdown(signal).await
+        }
+        ServerProto::H2 => {
+            let mut p = hyperdriver::server::conn::http2::Builder::new(TokioExecutor::new());
+            p.auto_date_header(false);
+            b.with_protocol(p).with_executor(exec).with_graceful_shutdown(signal).await
+        }
     }
 }
 
